@@ -42,6 +42,7 @@ DEBT_SETS = {
     "dai-mid": [("DAI", "0.6")],
     "usdc+dai": [("USDC", "0.45"), ("DAI", "0.85")],  # second share is of the REMAINING room
     "weth-debt": [("WETH", "0.5")],
+    "usdc-dust": [("USDC", "0.00000002")],  # a debt worth a few hundred-thousandths of a dollar is a debt
 }
 PRICE_VECTORS = {
     "same": {},
@@ -51,7 +52,7 @@ PRICE_VECTORS = {
     "crash": {"WETH": "0.55", "WBTC": "0.6", "AAVE": "0.5"},
 }
 QUICK_S = ["weth", "weth+usdc", "weth+usdtN", "three", "wbtc", "onlyN", "usdc+wethN", "weth+link0"]
-QUICK_D = ["none", "usdc-low", "usdc-high", "usdc+dai", "weth-debt"]
+QUICK_D = ["none", "usdc-low", "usdc-high", "usdc+dai", "weth-debt", "usdc-dust"]
 QUICK_P = ["same", "weth-10%", "depeg"]
 FACTORS = [("in", Fraction(999, 1000)), ("in6", 1 - Fraction(1, 10**6)), ("out6", 1 + Fraction(1, 10**6)),
            ("out", Fraction(1001, 1000)), ("far", Fraction(3, 2))]
